@@ -872,6 +872,8 @@ def _matrix(x, size, tc):
     if isinstance(x, Ref):
         t = tc or x.tc
         if ORDER[x.tc] > ORDER[t]:
+            if x.m * x.n == 0:
+                raise UNSPECIFIED("down-conversion of a matrix without elements")
             raise RAISES(E_TYPE, "conversion %s -> %s is not defined" % (x.tc, t))
         v = [conv(e, t) for e in x.v]
         m, n = size if size is not None else (x.m, x.n)
@@ -947,6 +949,8 @@ def spmatrix(x, I, J, size=None, tc=None):
         vals = list(x.v)
         t = tc or ("z" if x.tc == "z" else "d")
         if ORDER[x.tc] > ORDER[t]:
+            if x.m * x.n == 0:
+                raise UNSPECIFIED("down-conversion of a matrix without elements")
             raise RAISES(E_TYPE, "conversion %s -> %s is not defined" % (x.tc, t))
     elif is_seq(x):
         vals = _seq_values(x)
@@ -988,6 +992,8 @@ def sparse(x, tc=None):
     if isinstance(x, Ref):
         t = tc or maxtc("d", x.tc)
         if ORDER[x.tc] > ORDER[t]:
+            if x.m * x.n == 0:
+                raise UNSPECIFIED("down-conversion of a matrix without elements")
             raise RAISES(E_TYPE, "conversion %s -> %s is not defined" % (x.tc, t))
         r = Ref(t, x.m, x.n, [conv(e, t) for e in x.v], True)
     elif isinstance(x, list):
@@ -1911,7 +1917,7 @@ class Lockstep(object):
 # ---------------------------------------------------------------------------
 # containment: cases run in forked children (a batch per child), so that heap corruption caused
 # by one program cannot falsify the verdict of later ones and a dying interpreter still yields a
-# keyed witness.  A child is retired as soon as one of its cases reports a violation.
+# keyed witness.  A child is retired as soon as one of its cases reports a violation that may have damaged the heap.
 # ---------------------------------------------------------------------------
 class ForkRunner(object):
     """runner = ForkRunner(ctx, one); ctx.run_case(k, {}, runner.run)
@@ -1921,7 +1927,10 @@ class ForkRunner(object):
     merges verdict, counters, maxima, samples.  A child that dies becomes the violation
     'crash:<class of the last step>' of the case it was running."""
 
-    def __init__(self, ctx, fn, batch=60):
+    DANGEROUS = ("after-exception", "modified-on-error", "crash", "ccs-", "lifetime", "out-of-sync",
+                 "harness-exception")
+
+    def __init__(self, ctx, fn, batch=250):
         self.ctx, self.fn, self.batch = ctx, fn, batch
         self.pid = None
         self.cmd_w = self.res_r = None
@@ -1956,7 +1965,8 @@ class ForkRunner(object):
                        "".join(traceback.format_exception(type(e), e, e.__traceback__))[-3000:])
             done += 1
             delta = dict((n, v - before.get(n, 0)) for n, v in ctx.counters.items() if v != before.get(n, 0))
-            retire = bool(c.failed) or done >= self.batch
+            # a finding that may have left the heap damaged retires the child; forks are expensive
+            retire = done >= self.batch or any(any(d in v["key"] for d in self.DANGEROUS) for v in c.failed)
             send(("done", {"failed": c.failed, "checked": c.checked, "sig": c.sig, "desc": c.desc,
                            "counters": delta, "maxima": ctx.maxima, "samples": ctx.samples[nsamples:],
                            "retire": retire}))
@@ -2039,7 +2049,13 @@ class ForkRunner(object):
             status = self._reap()
             sig = os.WTERMSIG(status) if os.WIFSIGNALED(status) else 0
             c.check()
-            c.fail("crash:%s" % ((last or "before-first-step").split(":")[0]),
+            import signal as _sg
+            try:
+                signame = _sg.Signals(sig).name if sig else "exit-%d" % os.WEXITSTATUS(status)
+            except ValueError:
+                signame = "signal-%d" % sig
+            # keyed by signal: the step that dies is often not the one that damaged the heap
+            c.fail("crash:%s" % signame,
                    "interpreter died (%s) while/after executing a step of class %r" %
                    ("signal %d" % sig if sig else "exit status %d" % os.WEXITSTATUS(status), last) +
                    "\nprogram:\n  " + "\n  ".join(prog))
